@@ -652,6 +652,22 @@ def policer_guard(ctx, rep, rule):
                           ctx.py.loc(mod, node))
         if not any(k[0] for k in seen) or not any(k[1] and k[2] for k in seen):
             rep.missing(rule, mod + ".__init__: policer / limit_rps cases")
+    # the policer of a session is chosen once, in the constructor: no method replaces or clears it later
+    for mod in CLIENTS:
+        for meth, node in sorted(m.classes.get(mod, {}).get("SnmpSession", {}).items()):
+            if meth == "__init__" or (meth.startswith("_") and meth in ("_setup_policer",)):
+                continue
+            for n_ in ast.walk(node):
+                tg = []
+                if isinstance(n_, ast.Assign):
+                    tg = [ast.unparse(t_) for t_ in n_.targets]
+                elif isinstance(n_, (ast.AugAssign, ast.AnnAssign)):
+                    tg = [ast.unparse(n_.target)]
+                if any(t_ == "self._policer" or t_.startswith("self._policer,") or ", self._policer" in t_ for t_ in tg):
+                    called_from_init = any(e.origin and meth in e.origin for p_ in (m.paths(mod, "SnmpSession", "__init__") or []) for e in p_.events)
+                    rep.check(rule, "%s.SnmpSession.%s|policer not replaced" % (mod, meth), called_from_init, "",
+                              "self._policer is assigned in %s(): requests sent while it is cleared (or after a failure that skips the restore) are not rate limited" % meth,
+                              ctx.py.loc(mod, n_))
     nctor = 0
     for meth in sorted(m.classes.get("sync_client", {}).get("SnmpSession", {})):
         ps = m.paths("sync_client", "SnmpSession", meth)
